@@ -148,6 +148,7 @@ static void id_case(uint64_t idx, void *ctx)
 int main(int argc, char **argv)
 {
     mc_init("C05", argc, argv);
+    libast_debug_level = (unsigned) mc_dlevel();        /* --dlevel=N: the whole run at runtime debug level N (default 0) */
     build_tables();
     mc_info("alphabet", "classes str, ustr, mbuff, objpair, tok, url, regexp and list/vector/map x {array, linked_list, dlinked_list}; per class a pool of reachable states (empty, slack after a shrinking splice, "
             "NULL placeholders, key-only pair, tokenizer before eval, URL after unparse ...); dup cases: %llu = states x (1 + 2 x mutators + 2 deletion orders); comparison cases: %llu pairs+triples; %d synthetic address pairs",
